@@ -148,6 +148,19 @@ pub fn check_direct_pair(c: &Pair) -> Outcome {
             return fail(format!("{ctx}: Value::eq gives {eab}, the values denoted are {}", if m { "equal" } else { "different" }));
         }
     }
+    // the comparison operators a host writes in Rust (`a < b`, `a <= b` ...) are the ones partial_cmp defines
+    match guard(|| (a < b, a <= b, a > b, a >= b)) {
+        Err(p) => return fail(format!("{ctx}: {}", p.short())),
+        Ok((lt, le, gt, ge)) => {
+            let want = match cab {
+                Some(o) => (o == Ordering::Less, o != Ordering::Greater, o == Ordering::Greater, o != Ordering::Less),
+                None => (false, false, false, false),
+            };
+            if (lt, le, gt, ge) != want {
+                return fail(format!("{ctx}: the operators give < {lt}, <= {le}, > {gt}, >= {ge} while partial_cmp gives {cab:?} (`a <= b` iff `a < b || a == b`; unordered values satisfy none)"));
+            }
+        }
+    }
     if cab.map(|o| o.reverse()) != cba {
         return fail(format!("{ctx}: partial_cmp(a,b) = {cab:?} but partial_cmp(b,a) = {cba:?}"));
     }
@@ -337,7 +350,7 @@ pub fn check_program_pair(c: &ProgPair) -> Outcome {
 pub struct MinMax {
     pub items: Vec<V>,
     pub max: bool,
-    /// 0: max(a, b, c)   1: max([a, b, c])
+    /// 0: max(a, b, c)   1: max([a, b, c])   2 / 3: the same with the items written as literals
     pub form: u8,
 }
 
@@ -353,10 +366,18 @@ pub fn check_minmax(c: &MinMax) -> Outcome {
     let vars: Vec<(String, V)> = c.items.iter().enumerate().map(|(i, v)| (format!("v{i}"), v.clone())).collect();
     let names: Vec<String> = vars.iter().map(|(n, _)| n.clone()).collect();
     let f = if c.max { "max" } else { "min" };
-    let src = match c.form {
-        0 => format!("{f}({})", names.join(", ")),
-        _ => format!("{f}([{}])", names.join(", ")),
+    let lits: Option<Vec<String>> = c.items.iter().map(lit::lit).collect();
+    let src = match (c.form, &lits) {
+        (0, _) => format!("{f}({})", names.join(", ")),
+        (1, _) => format!("{f}([{}])", names.join(", ")),
+        (2, Some(l)) => format!("{f}({})", l.join(", ")),
+        (3, Some(l)) => format!("{f}([{}])", l.join(", ")),
+        _ => return Outcome::Skip("no-literal-form"),
     };
+    // with one argument that is itself a list, `max(l)` ranges over l: that call shape is about l's elements, not about l
+    if matches!(c.form, 0 | 2) && c.items.len() == 1 && matches!(c.items[0], V::List(_)) {
+        return Outcome::Skip("single-list-argument-ranges-over-the-list");
+    }
     // a single non-list argument is returned as is; a single-element list yields that element
     let got = match sut::run_src(&src, &vars) {
         Ran::Done(R::Val(v)) => v,
@@ -448,6 +469,19 @@ pub fn run(r: &mut Runner) {
                     for b in &strs {
                         cases.push(MinMax { items: vec![a.clone(), b.clone()], max: mx, form });
                     }
+                }
+            }
+            // the items written as literals; a collection whose only element is itself a list
+            for a in &ordered {
+                for b in &ordered {
+                    for form in 2..4u8 {
+                        cases.push(MinMax { items: vec![a.clone(), b.clone()], max: mx, form });
+                    }
+                }
+            }
+            for inner in [vec![V::Int(3), V::Int(1), V::Int(2)], vec![], vec![V::Int(1), V::s("a")], vec![V::List(vec![V::Int(1)])]] {
+                for form in [1u8, 3] {
+                    cases.push(MinMax { items: vec![V::List(inner.clone())], max: mx, form });
                 }
             }
         }
